@@ -425,6 +425,12 @@ def corpus_schedule(tier, seed, rnd):
                 e = dict(c, sampler=smp, ns=ns)
                 if smp == "emcee_smc":
                     e.pop("min_step", None); e.pop("max_n_steps", None)
+                # domain: log-densities must be representable to ~1e-3 in the requested precision; in
+                # float32 a likelihood of width 1e-4 gives log-values of 1e8 with an error of +-8, i.e.
+                # numerical noise (numpy then refuses the resampling probabilities).  Extremely peaked
+                # likelihoods are exercised in float64, float32 down to width 0.05.
+                if ns != "numpy":
+                    e["dtype"] = "float64" if (c["width"] < 0.05 or len(extra) % 2 == 0) else "float32"
                 extra.append(e)
         rnd.shuffle(extra)
         specs += extra[:3000]
